@@ -58,13 +58,18 @@ def run(tier, seed):
               'trials inside them as they arrive from the wire (doubles / strings), plus trials carrying unknown or inactive parameters; '
               'StudyConfig.trial_parameters compared with the model and with an oracle written from the property text; '
               'non-trivial = conditional space, indexed parameter or invalid trial')
-  rep.trusted = ['Coq 8.16.1 kernel + vm_compute', 'harness/translate/extbfs.py (Python-ast translator of the loop of _trial_to_external_values, fail-closed)', 'exact rationals instead of IEEE doubles', 'harness/props/c17.py oracle', 'proto shim']
+  rep.trusted = ['harness/translate/autocast.py (Python-ast translator of the auto-cast rule of add_discrete_param, fail-closed)', 'Coq 8.16.1 kernel + vm_compute', 'harness/translate/extbfs.py (Python-ast translator of the loop of _trial_to_external_values, fail-closed)', 'exact rationals instead of IEEE doubles', 'harness/props/c17.py oracle', 'proto shim']
   tbroke = None
   try:
     from harness.translate import extbfs
     C.write_gen('Gen/ExternalSrc.v', extbfs.translate(C.REPO))
   except Exception as e:  # pylint: disable=broad-except
     tbroke = 'translator harness/translate/extbfs.py refused study_config.py: %r' % (e,)
+  try:
+    from harness.translate import autocast
+    C.write_gen('Gen/AutoCastSrc.v', autocast.translate(C.REPO))
+  except Exception as e:  # pylint: disable=broad-except
+    tbroke = ((tbroke or '') + ' translator harness/translate/autocast.py refused parameter_config.py: %r' % (e,)).strip()
   C.standard_proof_step(rep, 'C17')
   broke = ((tbroke or '') + ' ' + (rep.proof_broken or '')).strip() or None
   concrete = False
@@ -102,6 +107,11 @@ def run(tier, seed):
           declared[nm] = ('int', [float(v) for v in vals])
         elif k == 'disc_float':
           vals = r.sample([0.5, 1.0, 2.5], r.randrange(1, 4))
+          if r.random() < 0.4:
+            # values that are almost, but not, integers (tiny step sizes, results of floating-point arithmetic): still floats
+            vals = r.sample([1e-8, 1e-7, 2.9999999999999996, 3.0000001, 1.0000000001, 5.0, 0.1 * 30 + 4e-16], r.randrange(1, 4))
+            vals = sorted(set(vals))
+            rep.count('discrete_almost_integral_values')
           if all(float(v).is_integer() for v in vals):
             vals = vals + [0.25]
           sel.add_discrete_param(nm, vals)
@@ -361,6 +371,50 @@ def run(tier, seed):
         if set(got) != set(params):
           viol('trial_parameters does not present exactly the trial\'s parameters for a multi-valued condition',
                {'config': how, 'parent_values_of_child': under, 'trial': params, 'presented': repr(got)})
+  # ---- children with the SAME NAME but different declared types under different values of one parent (names are unique per
+  # subspace only): each is presented in the type declared for it in the subspace that is active
+  for k_ in range(4 if tier == 'quick' else 24):
+    sc = svz.StudyConfig()
+    root_ = sc.search_space.root
+    root_.add_categorical_param('model', ['cnn', 'mlp'])
+    cnn_, mlp_ = root_.select('model', ['cnn']), root_.select('model', ['mlp'])
+    int_first = k_ % 2 == 0
+    (cnn_ if int_first else mlp_).add_discrete_param('width', [1, 2, 4])             # integer-valued: presented as int
+    (mlp_ if int_first else cnn_).add_discrete_param('width', [0.25, 0.5, 1.5])      # presented as float
+    (cnn_ if int_first else mlp_).add_bool_param('flag')                              # presented as True / False
+    (mlp_ if int_first else cnn_).add_categorical_param('flag', ['True', 'x'])        # presented as str
+    sc.metric_information.append(vz.MetricInformation(name='m', goal=vz.ObjectiveMetricGoal.MAXIMIZE))
+    a_, b_ = ('cnn', 'mlp') if int_first else ('mlp', 'cnn')
+    cases_ = [({'model': a_, 'width': 2.0, 'flag': 'True'}, {'model': a_, 'width': 2, 'flag': True}),
+              ({'model': a_, 'width': 4.0, 'flag': 'False'}, {'model': a_, 'width': 4, 'flag': False}),
+              ({'model': b_, 'width': 1.5, 'flag': 'x'}, {'model': b_, 'width': 1.5, 'flag': 'x'}),
+              ({'model': b_, 'width': 0.25, 'flag': 'True'}, {'model': b_, 'width': 0.25, 'flag': 'True'})]
+    try:
+      configs = [('built', sc), ('through_proto', svz.StudyConfig.from_proto(sc.to_proto()))]
+    except Exception as e:  # pylint: disable=broad-except
+      viol('a space with same-named children under different parent values could not be sent over the wire: %s' % type(e).__name__, {'error': str(e)[:200]})
+      continue
+    for how, cfg in configs:
+      for stored_, want_ in cases_:
+        proto = study_pb2.Trial(id='1')
+        for kk_, v in stored_.items():
+          p_ = proto.parameters.add(parameter_id=kk_)
+          if isinstance(v, str):
+            p_.value.string_value = v
+          else:
+            p_.value.number_value = float(v)
+        rep.case({'same_named_children': True, 'config': how, 'trial': stored_}, True)
+        rep.count('same_named_children_different_types')
+        try:
+          got = dict(cfg.trial_parameters(proto))
+        except Exception as e:  # pylint: disable=broad-except
+          viol('trial_parameters refused a valid trial of a space with same-named children of different types (%s)' % type(e).__name__,
+               {'config': how, 'trial': stored_, 'error': str(e)[:200]})
+          continue
+        if got != want_ or any(type(got[n_]) is not type(want_[n_]) for n_ in want_):
+          viol('a parameter is not presented with the value / type declared for it in the active subspace (a same-named parameter of another '
+               'type exists under another parent value)',
+               {'config': how, 'trial': stored_, 'presented': {n_: repr(v_) for n_, v_ in got.items()}, 'expected': {n_: repr(v_) for n_, v_ in want_.items()}})
   C.settle_broken(rep, broke, concrete)
   return rep.finish()
 
